@@ -307,6 +307,8 @@ func c07(p *core.Program, r *core.Report) {
 		}
 	}
 
+	bboxEmittedRule(p, r, "bbox-emitted-when-present")
+
 	// ---- rule 6: errors
 	errflowRule(p, r, ruleText(r, "errors-propagated", "every error-returning call in package geojson (json.Unmarshal, SetCoords, Push, Decode, encode, handlers) propagates its error", 40), pkgFuncs(p, rel), nil)
 
